@@ -26,6 +26,7 @@ Definition X_UnknownForwards : N := 4.
 Definition X_TypeError : N := 5.        (* dynamic type error of the IR itself: never expected *)
 Definition X_BaseException : N := 6.    (* as a handler class: catches everything *)
 Definition X_Exception : N := 7.        (* as a handler class: catches everything of the fault model *)
+Definition X_KeyError : N := 8.         (* vars(o)[a] when a is not in o's own __dict__ *)
 
 Definition EXC_VAR : N := 0.            (* pseudo local: the exception being handled (for a bare `raise`) *)
 
@@ -40,7 +41,9 @@ Definition M_get : N := 4.
 
 (* ------------------------------------------------------------------ values *)
 Inductive sval :=
-| VNone | VBool (b : bool) | VStr (s : N) | VOpq (n : N) | VObj (o : N).
+| VNone | VBool (b : bool) | VStr (s : N) | VOpq (n : N) | VObj (o : N)
+| VDesc (d c : N).   (* a descriptor object d stored in the own __dict__ of a CLASS: reading the
+                        attribute through getattr yields the computed value c, vars(o)[a] yields d itself *)
 
 Inductive value :=
 | VS (s : sval)
@@ -55,6 +58,7 @@ Definition sval_eqb (a b : sval) : bool :=
   | VStr x, VStr y => N.eqb x y
   | VOpq x, VOpq y => N.eqb x y
   | VObj x, VObj y => N.eqb x y
+  | VDesc d1 c1, VDesc d2 c2 => N.eqb d1 d2 && N.eqb c1 c2
   | _, _ => false
   end.
 
@@ -105,7 +109,8 @@ Inductive expr :=
 | ENot (e : expr)
 | EIsNone (e : expr)                    (* e is None *)
 | EIfExp (c a b : expr)                 (* a if c else b *)
-| ECallMethod (e : expr) (m : N) (args : list expr).   (* e.m(args), m a translated method of e's class *)
+| ECallMethod (e : expr) (m : N) (args : list expr)    (* e.m(args), m a translated method of e's class *)
+| EVarsItem (e : expr) (a : expr).      (* vars(e)[a]: the attribute as stored in e's own __dict__ *)
 
 Inductive stmt :=
 | SSkip
@@ -209,8 +214,16 @@ Definition env := list (N * value).
 (* getattr: instance dictionary first, then the class; else AttributeError *)
 Definition obj_getattr (ob : obj) (a : N) : option value :=
   match alist_get a (oinst ob) with
+  | Some (VS (VDesc _ c)) => Some (VS (VOpq c))     (* descriptor protocol: the computed value *)
   | Some v => Some v
   | None => alist_get a (oclass ob)
+  end.
+
+(* vars(o)[a]: own dictionary only, no descriptor protocol; KeyError when absent *)
+Definition do_varsitem (st : state) (o a : N) : eres :=
+  match alist_get o (heap st) with
+  | None => ESt 2
+  | Some ob => match alist_get a (oinst ob) with Some v => EV v | None => EX X_KeyError end
   end.
 
 Definition crash_get (orc : oracle) (k : nat) : option N :=
@@ -384,6 +397,19 @@ Fixpoint eval (fuel : nat) (e : expr) (en : env) (st : state) {struct fuel} : er
     | EIfExp c a b =>
       match eval f c en st with
       | (EV v, st1) => if truthy v then eval f a en st1 else eval f b en st1
+      | r => r
+      end
+    | EVarsItem e1 ea =>
+      match eval f e1 en st with
+      | (EV v, st1) =>
+        match eval f ea en st1 with
+        | (EV va, st2) =>
+          match as_obj v, as_str va with
+          | Some o, Some a => (do_varsitem st2 o a, st2)
+          | _, _ => (ESt 4, st2)
+          end
+        | r => r
+        end
       | r => r
       end
     | ECallMethod e1 m args =>
@@ -709,22 +735,24 @@ Inductive slotcfg :=
 | Absent          (* getattr raises AttributeError *)
 | Inst            (* instance attribute: getattr succeeds, delattr succeeds *)
 | ClassLevel      (* class-level: getattr succeeds, delattr raises AttributeError *)
-| Both.           (* instance attribute shadowing a class-level one *)
+| Both            (* instance attribute shadowing a class-level one *)
+| OwnDesc.        (* the object is a class and its own __dict__ holds a DESCRIPTOR under this name:
+                     getattr computes a value, vars(o)[a] is the descriptor, delattr succeeds *)
 
 Record config := { c_wrapped : slotcfg; c_signature : slotcfg }.
 
-Definition all_slotcfg : list slotcfg := [Absent; Inst; ClassLevel; Both].
+Definition all_slotcfg : list slotcfg := [Absent; Inst; ClassLevel; Both; OwnDesc].
 Definition all_config : list config :=
   flat_map (fun w => map (fun s => {| c_wrapped := w; c_signature := s |}) all_slotcfg) all_slotcfg.
 
 Definition slot_inst (a : N) (c : slotcfg) (v : N) : list (N * value) :=
-  match c with Inst | Both => [(a, VS (VOpq v))] | _ => [] end.
+  match c with Inst | Both => [(a, VS (VOpq v))] | OwnDesc => [(a, VS (VDesc v (v + 20)))] | _ => [] end.
 Definition slot_class (a : N) (c : slotcfg) (v : N) : list (N * value) :=
   match c with ClassLevel | Both => [(a, VS (VOpq v))] | _ => [] end.
 
 (* the inspected object: id 1; its original attribute values are the opaque
-   values 11/12 (instance) and 21/22 (class level); 'other' = 99 stands for the
-   rest of its __dict__ *)
+   values 11/12 (instance) and 21/22 (class level); a descriptor 11/12 computes
+   31/32; 'other' = 99 stands for the rest of its __dict__ *)
 Definition user_obj (c : config) : obj :=
   {| ocls := C_user;
      oinst := slot_inst A_wrapped (c_wrapped c) 11 ++ slot_inst A_signature (c_signature c) 12 ++ [(99, VS (VOpq 7))];
@@ -816,11 +844,14 @@ Definition eres_code (r : eres) : N * N :=
   end.
 
 (* attribute configuration of the inspected object after the run:
-   per attribute 0 absent, 1 instance, 2 class-level, 3 both, 4 wrong value *)
+   per attribute 0 absent, 1 instance, 2 class-level, 3 both, 4 wrong value,
+   6 own descriptor intact, 7 own descriptor replaced by the value it computed *)
 Definition slot_code (ob : obj) (a : N) (vi vc : N) : N :=
   match alist_get a (oinst ob), alist_get a (oclass ob) with
   | None, None => 0
-  | Some v, None => if value_eqb v (VS (VOpq vi)) then 1 else 4
+  | Some (VS (VDesc d c)), None => if N.eqb d vi && N.eqb c (vi + 20) then 6 else 4
+  | Some v, None => if value_eqb v (VS (VOpq vi)) then 1
+                    else if value_eqb v (VS (VOpq (vi + 20))) then 7 else 4
   | None, Some v => if value_eqb v (VS (VOpq vc)) then 2 else 4
   | Some v, Some w => if value_eqb v (VS (VOpq vi)) && value_eqb w (VS (VOpq vc)) then 3
                       else if value_eqb v (VS (VOpq vc)) && value_eqb w (VS (VOpq vc)) then 5  (* class value copied into the instance *)
